@@ -119,17 +119,20 @@ func (ab *AckBook) Collect() {
 		if b.ChanKind != "buf" {
 			continue
 		}
+		// receive and record under the batch's lock: Collect may be called from
+		// several goroutines, and a value must never be off the channel but not
+		// yet in Recv when another caller looks
+		b.mu.Lock()
 		for {
 			select {
 			case err := <-b.Ch:
-				b.mu.Lock()
 				b.Recv = append(b.Recv, AckObs{err, ab.clock()})
-				b.mu.Unlock()
 				continue
 			default:
 			}
 			break
 		}
+		b.mu.Unlock()
 	}
 }
 
